@@ -290,6 +290,26 @@ def other_sum_obs():
         return goals
     ob = Ob('sw_np', src, [('buf', S('i32'), False), ('scalar', 'bool')], None, nppost, {'kind': 'switch', 'sum': 'nullable-pointer'}, event_funcs={'mark'})
     ob.handles_abort = True; obs.append(ob)
+    # nullable pointer with a default arm: naming the pointer, naming nil, naming neither
+    for nm, arms, exp_some, exp_nil in (('some', '^i32 => { mark(1); mark(u64.(v^)); }, _ => { mark(99); }', 'ptr', [99]),
+                                        ('nil', 'nil => { mark(2); }, _ => { mark(99); }', [99], [2]),
+                                        ('none', '_ => { mark(99); }', [99], [99])):
+        name = 'sw_npd_' + nm
+        src = ('%s_in :: (o: ?^i32) { switch v in o { %s } }\n'
+               '%s :: (q: ^i32, isnil: bool) { o : ?^i32 = q; if isnil { o = nil; } %s_in(o); }' % (name, arms, name, name))
+
+        def dpost(ctx, xs, exp_some=exp_some, exp_nil=exp_nil):
+            b = ctx.bufs[0]
+            got = ctx.marks()
+            goals = [('the pointee is not modified', frame(ctx, b, [])), ('a nullable-pointer switch never aborts', z3.BoolVal(ctx.status == 'ret'))]
+            if ctx.status != 'ret':
+                return goals
+            es = [1, ext64(ctx.init_bytes(b, 0, 4), True)] if exp_some == 'ptr' else exp_some
+            goals.append(('a non-nil pointer runs the arm naming it, else the default arm', z3.Implies(xs[0] == 0, marks_eq(got, es))))
+            goals.append(('nil runs the arm naming it, else the default arm', z3.Implies(xs[0] == 1, marks_eq(got, exp_nil))))
+            return goals
+        ob = Ob(name, src, [('buf', S('i32'), False), ('scalar', 'bool')], None, dpost, {'kind': 'switch', 'sum': 'nullable-pointer', 'arms': 'default+' + nm}, event_funcs={'mark'})
+        ob.handles_abort = True; obs.append(ob)
     return obs
 
 
